@@ -215,6 +215,7 @@ class FxpVal(_Fxp):
     """val(): rep / R, and one public output tied to the wire"""
     name = "pysnark.fixedpoint:LinCombFxp.val"
     op = "val"
+    vprops = ("C14", "C04")     # the number reported is the opened wire's value over R, at whatever the resolution is NOW
 
     def configs(self, tier):
         return [dict(mode=m, kind="none", res=r, bits=4) for r in RES + (8,) for m in ("plain", "g0")]
@@ -725,6 +726,7 @@ class FxpRemoveScaling(_Fxp):
     """remove_scaling(v): representation / R, for a plain representation and for a secret one (which is opened)"""
     name = "pysnark.fixedpoint:LinCombFxp.remove_scaling"
     op = "remove_scaling"
+    vprops = ("C14", "C04")
 
     def configs(self, tier):
         return [dict(mode="plain", kind=k, res=r, bits=4) for r in RES + (8,) for k in ("lc", "int")]
